@@ -209,7 +209,7 @@ SYMS3 = 3
 
 
 def db_space(n, combo, max_gaps, binary=False, cli=False, base_level=0.0,
-             t0=None):
+             t0=None, int_thresholds=False):
     """Records with n samples: rain word (n symbols), increment word
     (n-1 symbols), gap mask over the n-2 interior samples with at most
     max_gaps missing.  binary=True restricts both alphabets to the two
@@ -233,13 +233,17 @@ def db_space(n, combo, max_gaps, binary=False, cli=False, base_level=0.0,
             case['base_level'] = base_level
         if t0 is not None:
             case['t0'] = t0
+        if int_thresholds:
+            # whole-number thresholds handed over as Python integers
+            case['int_thresholds'] = True
         return case
     return Space(
         '%s/n=%d/dt=%d,s=%g,j=%g/%s/gaps<=%d%s%s' % (
             'main(argv)' if cli else 'load+classify', n, combo[0], combo[1],
             combo[2], 'binary' if binary else 'ternary', max_gaps,
             '/levels from %g' % base_level if base_level else '',
-            '/record starts at epoch %d' % t0 if t0 is not None else ''),
+            '/record starts at epoch %d' % t0 if t0 is not None else
+            '/thresholds passed as integers' if int_thresholds else ''),
         size, decode,
         'rain in {0,=s,>s} x increment in {fall,=j*dt,>j*dt} x gap masks'
         if not binary else
@@ -295,9 +299,16 @@ def run_db(case, want):
                 {'nontrivial': False, 'outcome': 'load-refused',
                  'counters': {'load_refused:' + exc_site(exc): 1},
                  'obs': {'load': repr(exc)[:200]}})
+    if case.get('int_thresholds'):
+        si, ji = int(s), int(j)
+        if si != s or ji != j:
+            raise InternalError('thresholds are not whole numbers')
+    else:
+        si, ji = s, j
     try:
-        return _classify_and_compare(connection, s, j, want,
-                                     lambda: classify_loaded(connection, s, j))
+        return _classify_and_compare(
+            connection, s, j, want,
+            lambda: classify_loaded(connection, si, ji))
     finally:
         connection.close()
 
